@@ -82,7 +82,8 @@ def check_loaded(res, dump, cfg):
         if t["is_nested"]:
             o = ref("type", t["outer_class"], T, "type.outer_class", listed=listed_types)
             if o is not None and ti not in o["nested_types"]:
-                res.violation("backlink:outer_class-does-not-list-nested", type=t["scoped_name"])
+                res.violation("backlink:outer_class-does-not-list-nested:" + ("typedef" if t["is_typedef"] else kind_of(db, ti)),
+                              type=t["scoped_name"])
         if t["is_wrapped"] or t["is_typedef"] or t["is_array"]:
             ref("type", t["wrapped_type"], T, "type.wrapped_type", listed=listed_types)
         for k in ("constructors", "methods", "casts"):
